@@ -1208,6 +1208,14 @@ def unit_index(wsp, root_name):
             rest = p.split(marker, 1)[1]
             cid, rel = rest.split("/", 1)
             idx[(cid, rel)] = u
+    # package directories: (case id, "dir/") -> module id
+    for mid, r in wsp.module_ids.items():
+        p = str(r.get("unit_path"))
+        if mid not in wsp.unit_path and marker in p:
+            rest = p.split(marker, 1)[1]
+            if "/" in rest:
+                cid, rel = rest.split("/", 1)
+                idx[(cid, rel.rstrip("/") + "/")] = mid
     return idx
 
 
@@ -1426,7 +1434,7 @@ def eval_case(wsp, case, idx, ops, stats):
             stats["resolved" if exp is not None else "unresolved"] += 1
             if not ok:
                 if via_import:
-                    fid = classify_import(imp[name], real, imp, name)
+                    fid = classify_import(imp[name], real, imp, name, case, rel)
                 else:
                     fid = classify(wsp, unit, case["lang"], oracle, stmt, line, name, exp, real)
                 mism.append({"case": case["id"], "file": rel, "line": line, "name": name, "stmt": stmt, "mode": mode,
@@ -1443,6 +1451,9 @@ def judge_import(wsp, case, idx, unit, sid, su, target):
     if real is None or tunit is None:
         return False, real
     if target[1] is None:
+        if target[0].endswith("/"):
+            # a package: its directory module or its __init__ unit
+            return (real.get("symbol") in (tunit, idx.get((case["id"], target[0] + "__init__.py")))), real
         return (real.get("symbol") == tunit), real
     if "id" not in real or real["unit"] != tunit or real["name"] != target[1]:
         return False, real
@@ -1451,7 +1462,42 @@ def judge_import(wsp, case, idx, unit, sid, su, target):
     return d["parent"] == 0, real
 
 
-def classify_import(target, real, tags=None, name=None):
+def proj_on_cycle(proj, rel):
+    """is file `rel` on a cycle of the project's import statements (importer -> module named in the statement)?"""
+    edges = {r: {i.get("via") for i in f["imports"] if i.get("via")} for r, f in proj["files"].items()}
+    seen, todo = set(), list(edges.get(rel, ()))
+    while todo:
+        x = todo.pop()
+        if x == rel:
+            return True
+        if x not in seen:
+            seen.add(x)
+            todo += list(edges.get(x, ()))
+    return False
+
+
+def classify_import(target, real, tags=None, name=None, case=None, rel=None):
+    # I4: the imported name denotes a package (directory) and a module file of the same name lies in the
+    # same directory: Python takes the package, lian matches both graph nodes and the first one wins
+    # (or, when the importer is that very module, gives up).
+    if target[1] is None and target[0].endswith("/") and case is not None and \
+            target[0].rstrip("/") + ".py" in case["files"]:
+        return "C05/py-package-beside-same-named-module"
+    # I3: a name re-exported by a module (`from .b import f` in a, `from .a import f` elsewhere) is
+    # followed through the import graph, but when the importer sits on an import cycle the
+    # intermediate module's imports are analysed while the importer's own are still in progress (or
+    # vice versa) and the chain stops at the import statement.
+    via = None
+    if case is not None and case.get("proj") and rel in case["proj"]["files"]:
+        via = next((i.get("via") for i in case["proj"]["files"][rel]["imports"] if name in i["locals"]), None)
+    if target[2] == "chain" and via is not None and via in case["proj"]["files"]:
+        # the intermediate module imports the final target under two names: I2 breaks the chain there
+        vt = [t for i in case["proj"]["files"][via]["imports"] for t in i["locals"].values()]
+        if sum(1 for t in vt if t[0] == target[0] and t[1] == target[1]) >= 2 and (real is None or real.get("kind") == "import"):
+            return "C05/py-same-target-imported-under-two-names"
+    if target[2] == "chain" and via is not None and (proj_on_cycle(case["proj"], rel) or proj_on_cycle(case["proj"], via)) \
+            and (real is None or real.get("kind") == "import"):
+        return "C05/py-reexport-through-import-cycle"
     # I1: a name that is only available through `from m import *` is never looked up in the import
     # graph by resolve_symbol_source_decl: it stays unresolved.
     if target[2] == "star" and real is None:
@@ -1535,6 +1581,289 @@ def gen_import_case(rng, cid):
         if py_valid(files["main.py"]):
             break
     return {"id": cid, "lang": "python", "files": files, "trees": {}, "imports": {"main.py": tags}}
+
+
+# ====================================================================== package projects (relative imports)
+# A project is a JSON-able structure, rendered by `proj_render`:
+#   proj = {"root": name, "files": {relpath: {"decls": [[kind, name]…], "imports": [imp…], "uses": [local…]}}}
+#   imp  = {"text": import line, "locals": {local name: [target relpath | "dir/", decl name | None, kind]}}
+# The tags are the oracle: Python's relative import is path arithmetic on the package layout.
+
+PKG_MODS = ["helpers", "util", "m", "n"]
+PKG_SUBS = ["a", "b", "m", "helpers"]
+PKG_DECLS = ["f", "g", "v", "K"]
+
+
+def proj_render(proj):
+    files = {}
+    for rel, f in proj["files"].items():
+        lines = [i["text"] for i in f["imports"]]
+        for kind, n in f["decls"]:
+            if kind == "def":
+                lines += [f"def {n}(a):", "    return a"]
+            elif kind == "var":
+                lines.append(f"{n} = 1")
+            else:
+                lines += [f"class {n}:", "    fld = 1"]
+        live = {l for i in f["imports"] for l in i["locals"]}
+        uses = [u for u in f["uses"] if u in live]
+        for u in uses:
+            lines.append(f"sink({u})")
+        if uses:
+            lines.append("def user():")
+            for u in uses:
+                lines.append(f"    sink({u})")
+        files[rel] = "\n".join(lines) + ("\n" if lines else "")
+    return files
+
+
+def proj_tags(proj):
+    return {rel: {l: t for i in f["imports"] for l, t in i["locals"].items()}
+            for rel, f in proj["files"].items() if f["imports"]}
+
+
+def make_proj_case(cid, proj):
+    return {"id": cid, "lang": "python", "files": proj_render(proj), "trees": {}, "imports": proj_tags(proj), "proj": proj}
+
+
+def gen_pkg_project(rng, cid):
+    """Package directories of depth 1–4 with __init__.py; modules with the same names at neighbouring
+    levels (decoys); sub-packages named like modules elsewhere; imports: relative with 1–4 leading dots
+    (`from . import m`, `from .. import m`, `from ...x.y import f as l`, `from .m import *`), absolute from
+    the (case-unique) root package, of modules, of packages, of re-exported names (chains), circular."""
+    root = "r" + cid
+    dirs = [[root]]
+    cur = [root]
+    for _ in range(rng.randint(1, 4) - 1):
+        cur = cur + [rng.choice(PKG_SUBS)]
+        dirs.append(cur)
+    for _ in range(rng.randint(0, 2)):
+        d = rng.choice(dirs) + [rng.choice(PKG_SUBS)]
+        if d not in dirs and len(d) <= 4:
+            dirs.append(d)
+    files = {}
+    order = []
+    for d in dirs:
+        files["/".join(d) + "/__init__.py"] = {"decls": [], "imports": [], "uses": [], "pkg": d, "init": True}
+        subs = {x[-1] for x in dirs if x[:-1] == d}
+        for m in rng.sample(PKG_MODS, rng.randint(1, 3)):
+            if m in subs and rng.random() < 0.8:
+                continue          # a module beside a package of the same name: rare
+            rel = "/".join(d + [m]) + ".py"
+            kinds = {"f": "def", "g": "def", "v": "var", "K": "class"}
+            files[rel] = {"decls": [[kinds[n], n] for n in sorted(rng.sample(PKG_DECLS, rng.randint(2, 3)))],
+                          "imports": [], "uses": [], "pkg": d, "init": False, "mod": m}
+            order.append(rel)
+    nloc = [0]
+    # "leaf" modules are never imported from; only they use `import *` (a star import into a module
+    # that is itself imported from re-exports everything and collides with its own definitions)
+    leaves = {r for r in order if rng.random() < 0.3}
+    if len(leaves) == len(order):
+        leaves = set()
+
+    def exports(rel, modules=False):
+        """name -> final [file, decl] of everything `from rel import name` can denote; with `modules`
+        also the imported modules / packages (a star import takes those along as well)"""
+        f = files[rel]
+        res = {n: [rel, n] for _, n in f["decls"]}
+        for i in f["imports"]:
+            for l, t in i["locals"].items():
+                if t[2] != "star" and (t[1] is not None or modules):
+                    res.setdefault(l, [t[0], t[1]])
+        return res
+
+    def spec(P, Q, k):
+        """relative module path from package P to package path Q through the common ancestor P[:k]"""
+        return "." * (len(P) - k + 1) + ".".join(Q[k:])
+
+    def add_import(rel, force_dots=None):
+        f = files[rel]
+        P = f["pkg"]
+        cands = [r for r in order if r != rel and r not in leaves]
+        if not cands:
+            return
+        tgt = rng.choice(cands)
+        if force_dots is not None:
+            deep = [r for r in cands if len(P) - force_dots + 1 >= 1 and files[r]["pkg"][:len(P) - force_dots + 1] == P[:len(P) - force_dots + 1]]
+            if not deep:
+                return
+            tgt = rng.choice(deep)
+        Q, m = files[tgt]["pkg"], files[tgt]["mod"]
+        common = 0
+        while common < min(len(P), len(Q)) and P[common] == Q[common]:
+            common += 1
+        k = rng.randint(1, common) if force_dots is None else len(P) - force_dots + 1
+        dots = len(P) - k + 1
+        nloc[0] += 1
+        local = f"l{nloc[0]}"
+        form = rng.choice(["mod", "decl", "decl", "decl", "star", "abs_decl", "abs_mod", "pkgdir", "chain"])
+        kind = f"rel{dots}"
+        if form == "mod":
+            base = spec(P, Q, k)
+            text = f"from {base} import {m} as {local}"
+            # `from pkg import x`: a package `x/` beside `x.py` wins in Python
+            t = ["/".join(Q + [m]) + "/", None, kind] if Q + [m] in dirs else [tgt, None, kind]
+            locs = {local: t}
+        elif form in ("decl", "chain"):
+            ex = exports(tgt)
+            own = {n for _, n in files[tgt]["decls"]}
+            ex = {n: t for n, t in ex.items() if t[0] != rel}       # not the importer's own symbol through a chain
+            names = sorted(n for n in ex if (n not in own) == (form == "chain")) or sorted(ex)
+            if not names:
+                return
+            n = rng.choice(names)
+            base = spec(P, Q + [m], k)
+            text = f"from {base} import {n} as {local}"
+            locs = {local: ex[n] + [kind if n in own else "chain"]}
+        elif form == "star":
+            if rel not in leaves or any("import *" in i["text"] for i in f["imports"]) or \
+                    any(i.get("via") == tgt or t[0] == tgt for i in f["imports"] for t in i["locals"].values()):
+                return
+            base = spec(P, Q + [m], k)
+            text = f"from {base} import *"
+            mine = {n for _, n in f["decls"]} | {l for i in f["imports"] for l in i["locals"]}
+            # everything public in the target comes along: its definitions AND the names it imported
+            locs = {n: t + ["star"] for n, t in exports(tgt, modules=True).items() if n not in mine and t[0] != rel}
+            if not locs or len(locs) != len(exports(tgt, modules=True)):
+                return
+        elif form == "abs_decl":
+            n = rng.choice([x for _, x in files[tgt]["decls"]])
+            text = f"from {'.'.join(Q + [m])} import {n} as {local}"
+            locs = {local: [tgt, n, "abs"]}
+        elif form == "abs_mod":
+            text = f"from {'.'.join(Q)} import {m} as {local}"
+            t = ["/".join(Q + [m]) + "/", None, "abs"] if Q + [m] in dirs else [tgt, None, "abs"]
+            locs = {local: t}
+        else:   # a sub-package (directory) imported relatively
+            subs = [d for d in dirs if len(d) > 1 and d[:-1][:1] == P[:1]]
+            if not subs:
+                return
+            D = rng.choice(subs)
+            Qd = D[:-1]
+            c2 = 0
+            while c2 < min(len(P), len(Qd)) and P[c2] == Qd[c2]:
+                c2 += 1
+            if c2 < 1:
+                return
+            k2 = rng.randint(1, c2)
+            d2 = len(P) - k2 + 1
+            text = f"from {spec(P, Qd, k2)} import {D[-1]} as {local}"
+            locs = {local: ["/".join(D) + "/", None, f"rel{d2}"]}
+        have = {(t[0], t[1]) for i in f["imports"] for t in i["locals"].values()}
+        starred = {i.get("via") for i in f["imports"] if "import *" in i["text"]}
+        if any((t[0], t[1]) in have or (t[0] in starred and t[1] is not None) for t in locs.values()) or \
+                (form in ("decl", "chain", "abs_decl") and tgt in starred):
+            return                # the same target under two local names is a finding of its own (I2)
+        f["imports"].append({"text": text, "locals": locs, "via": "/".join(D) + "/__init__.py" if form == "pkgdir" else tgt})
+        f["uses"] += sorted(locs)
+
+    for rel in order:
+        for _ in range(rng.randint(0, 3)):
+            add_import(rel)
+    # make sure deep relative imports occur: one import with the maximal number of dots possible
+    deepest = max(order, key=lambda r: len(files[r]["pkg"]))
+    for dots in range(len(files[deepest]["pkg"]), 1, -1):
+        add_import(deepest, force_dots=dots)
+    # a circular pair
+    inner = [r for r in order if r not in leaves]
+    if len(inner) >= 2 and rng.random() < 0.6:
+        a, b = rng.sample(inner, 2)
+        for x, y in ((a, b), (b, a)):
+            P, Q, m = files[x]["pkg"], files[y]["pkg"], files[y]["mod"]
+            c = 0
+            while c < min(len(P), len(Q)) and P[c] == Q[c]:
+                c += 1
+            nloc[0] += 1
+            have = {(t[0], t[1]) for i in files[x]["imports"] for t in i["locals"].values()}
+            free = [z for _, z in files[y]["decls"] if (y, z) not in have]
+            if not free or any("import *" in i["text"] and i.get("via") == y for i in files[x]["imports"]):
+                continue
+            n = rng.choice(free)
+            files[x]["imports"].append({"text": f"from {spec(P, Q + [m], c)} import {n} as l{nloc[0]}",
+                                        "locals": {f"l{nloc[0]}": [y, n, f"rel{len(P) - c + 1}"]}, "via": y})
+            files[x]["uses"].append(f"l{nloc[0]}")
+    # star imports see the FINAL contents of their target: recompute their tags now; drop a star import
+    # that would bring a symbol the importer also imports under another name (finding I2)
+    for rel in order:
+        f = files[rel]
+        for im in list(f["imports"]):
+            if "import *" not in im["text"]:
+                continue
+            mine = {n for _, n in f["decls"]} | {l for i in f["imports"] if i is not im for l in i["locals"]}
+            others = {(t[0], t[1]) for i in f["imports"] if i is not im for t in i["locals"].values()}
+            ex = exports(im["via"], modules=True)
+            locs = {n: t + ["star"] for n, t in ex.items() if n not in mine and t[0] != rel}
+            finals = [(t[0], t[1]) for t in locs.values()]
+            if len(locs) != len(ex) or any(x in others for x in finals) or len(set(finals)) != len(finals):
+                f["imports"].remove(im)
+                f["uses"] = [u for u in f["uses"] if u not in im["locals"]]
+            else:
+                f["uses"] = [u for u in f["uses"] if u not in im["locals"]] + sorted(locs)
+                im["locals"] = locs
+    proj = {"root": root, "files": {r: {k: v for k, v in f.items() if k in ("decls", "imports", "uses")} for r, f in files.items()}}
+    return make_proj_case(cid, proj)
+
+
+def proj_candidates(proj, keep_file):
+    """single-step reductions: drop one import entry (anywhere), drop one non-__init__ file other than
+    `keep_file` (with the imports that target it)."""
+    res = []
+    for rel, f in proj["files"].items():
+        for i in range(len(f["imports"])):
+            p2 = json.loads(json.dumps(proj))
+            del p2["files"][rel]["imports"][i]
+            res.append(p2)
+        for i in range(len(f["decls"])):
+            p2 = json.loads(json.dumps(proj))
+            del p2["files"][rel]["decls"][i]
+            if any(t[0] == rel and t[1] == f["decls"][i][1] for g in p2["files"].values() for im in g["imports"] for t in im["locals"].values()):
+                continue
+            res.append(p2)
+    for rel in proj["files"]:
+        if rel == keep_file or rel.endswith("__init__.py"):
+            continue
+        p2 = json.loads(json.dumps(proj))
+        del p2["files"][rel]
+        for g in p2["files"].values():
+            g["imports"] = [im for im in g["imports"] if not any(t[0] == rel for t in im["locals"].values())]
+        res.append(p2)
+    return res
+
+
+def proj_size(proj):
+    return sum(3 + len(f["imports"]) * 2 + len(f["decls"]) for f in proj["files"].values())
+
+
+def shrink_proj(scratch, case, rel, signature, ops, kinds, rounds=10, width=60):
+    cur = case
+    for rnd in range(rounds):
+        cands = []
+        for p2 in proj_candidates(cur["proj"], rel):
+            c = make_proj_case(f"s{rnd}_{len(cands):03d}", p2)
+            if all(py_valid(src) for src in c["files"].values()):
+                cands.append(c)
+        if not cands:
+            break
+        cands.sort(key=lambda c: proj_size(c["proj"]))
+        cands = cands[:width]
+        # candidates must not see each other's modules: one packed run, one root directory per candidate;
+        # the project root package keeps its (case-unique) name, so rename it per candidate
+        for c in cands:
+            new_root = "r" + c["id"]
+            blob = json.dumps(c["proj"]).replace(cur["proj"]["root"], new_root)
+            c2 = make_proj_case(c["id"], json.loads(blob))
+            c.update(c2)
+            c["rel"] = rel.replace(cur["proj"]["root"], new_root, 1)
+        try:
+            b = Batch(scratch, f"shp{rnd}", cands, ops, kinds).run()
+        except LianRunError:
+            break
+        good = {m["case"] for m in b.mism if (m["name"], m["finding"]) == signature}
+        best = next((c for c in cands if c["id"] in good), None)
+        if best is None:
+            break
+        cur, rel = best, best["rel"]
+    return cur
 
 
 # ====================================================================== hoisting correspondence
@@ -1688,8 +2017,9 @@ def hoist_correspondence(rng, n, corpus_trees):
 
 # ====================================================================== batches
 
-def gen_cases(rng, n_py, n_js, depth, prefix, n_imp=0):
+def gen_cases(rng, n_py, n_js, depth, prefix, n_imp=0, n_pkg=0):
     cases = [gen_import_case(random.Random(rng.getrandbits(64)), f"{prefix}imp{i:03d}") for i in range(n_imp)]
+    cases += [gen_pkg_project(random.Random(rng.getrandbits(64)), f"{prefix}pkg{i:03d}") for i in range(n_pkg)]
     tries = 0
     while len([c for c in cases if c["lang"] == "python"]) < n_py and tries < n_py * 5:
         tries += 1
@@ -1832,6 +2162,9 @@ def load_corpus():
                 c = json.load(open(os.path.join(d, f)))
                 c["id"] = "corpus_" + f[:-5].replace("-", "_")
                 c.setdefault("trees", {})
+                if c.get("proj"):
+                    # a package project: files and tags are rendered from the structure
+                    c.update({k: v for k, v in make_proj_case(c["id"], c["proj"]).items() if k in ("files", "imports")})
                 res.append(c)
     return res
 
@@ -1856,14 +2189,14 @@ def _run(ctx, proofs_ok, ops, kinds, scratch):
     tier = ctx.tier
     corpus = load_corpus()
     if tier == "quick":
-        plan = [(100, 100, 3, 25)]
+        plan = [(100, 100, 3, 25, 30)]
         n_hoist = 3000
     else:
-        plan = [(150, 150, 3, 40)] * 4 + [(120, 120, 4, 40)] * 4
+        plan = [(150, 150, 3, 40, 80)] * 4 + [(120, 120, 4, 40, 80)] * 4
         n_hoist = 20000
     batches = []
-    for i, (npy, njs, depth, nimp) in enumerate(plan):
-        cases = gen_cases(ctx.rng, npy, njs, depth, f"b{i}", n_imp=nimp)
+    for i, (npy, njs, depth, nimp, npkg) in enumerate(plan):
+        cases = gen_cases(ctx.rng, npy, njs, depth, f"b{i}", n_imp=nimp, n_pkg=npkg)
         if i == 0:
             cases = corpus + cases
         batches.append(Batch(scratch, f"b{i}", cases, ops, kinds))
@@ -1923,7 +2256,12 @@ def _run(ctx, proofs_ok, ops, kinds, scratch):
         b, m = unknown[0]
         case = next(c for c in b.cases if c["id"] == m["case"])
         small = case
-        if case.get("trees", {}).get(m["file"]) is not None and "imports" not in case:
+        if case.get("proj"):
+            try:
+                small = shrink_proj(scratch, case, m["file"], (m["name"], m["finding"]), ops, kinds)
+            except Exception as e:      # shrinking is best-effort
+                small = case
+        elif case.get("trees", {}).get(m["file"]) is not None and "imports" not in case:
             try:
                 small = shrink_case(scratch, case, m["file"], (m["name"], m["finding"]), ops, kinds,
                                     rounds=8 if tier == "quick" else 14)
@@ -1932,7 +2270,7 @@ def _run(ctx, proofs_ok, ops, kinds, scratch):
         ctx.violation({"what": "an identifier occurrence is bound to a declaration the language's scoping rules do not select "
                                "(oracle: CPython symtable / generator scope tags)",
                        "lang": case["lang"], "files": small["files"], "trees": small.get("trees", {}),
-                       "imports": small.get("imports"),
+                       "imports": small.get("imports"), "proj": small.get("proj"),
                        "first_mismatch_in_original": m, "unknown_mismatches_in_run": len(unknown),
                        "original_files": case["files"] if small is not case else None})
     elif diffs or not proofs_ok:
@@ -2001,6 +2339,8 @@ def replay(rp):
         case = {"id": "replay", "lang": rp["lang"], "files": rp["files"], "trees": rp.get("trees") or {}}
         if rp.get("imports"):
             case["imports"] = rp["imports"]
+        if rp.get("proj"):
+            case["proj"] = rp["proj"]
         b = Batch(scratch, "rp", [case], ops, kinds).run()
         findings = {f["id"] for f in json.load(open(os.path.join(common.VERIF, "known_findings.json")))["findings"]
                     if f["property"] == PROP and f.get("status", "open") == "open"}
